@@ -1,4 +1,5 @@
 import re
+import threading
 from configparser import ConfigParser
 from io import StringIO
 from warnings import warn
@@ -1870,6 +1871,10 @@ class CryptContext:
         return hash
 
 
+#: guards LazyCryptContext._lazy_init()
+_lazy_init_lock = threading.RLock()
+
+
 class LazyCryptContext(CryptContext):
     """CryptContext subclass which doesn't load handlers until needed.
 
@@ -1927,18 +1932,36 @@ class LazyCryptContext(CryptContext):
             kwds["schemes"] = schemes
         self._lazy_kwds = kwds
 
+    #: set while _lazy_init() is running (it is re-entered by the attribute
+    #: accesses CryptContext.__init__() makes on the half-built object)
+    _lazy_busy = False
+
     def _lazy_init(self):
-        kwds = self._lazy_kwds
-        if "onload" in kwds:
-            onload = kwds.pop("onload")
-            kwds = onload(**kwds)
-        del self._lazy_kwds
-        super().__init__(**kwds)
-        self.__class__ = CryptContext
+        # NOTE: serialized, so that threads making their first call concurrently
+        #       wait for the one doing the initialization instead of racing it.
+        with _lazy_init_lock:
+            kwds = self._lazy_kwds
+            if kwds is None or self._lazy_busy:
+                # already done by another thread / re-entered from __init__()
+                return
+            self._lazy_busy = True
+            try:
+                kwds = dict(kwds)
+                if "onload" in kwds:
+                    onload = kwds.pop("onload")
+                    kwds = onload(**kwds)
+                super().__init__(**kwds)
+                self.__class__ = CryptContext
+                # NOTE: kept as an instance attribute (instead of deleted) for
+                #       threads that are still inside our __getattribute__().
+                self._lazy_kwds = None
+            finally:
+                del self._lazy_busy
 
     def __getattribute__(self, attr):
         if (
             not attr.startswith("_") or attr.startswith("__")
         ) and self._lazy_kwds is not None:
-            self._lazy_init()
+            # NOTE: not self._lazy_init(): the class may just have been switched
+            LazyCryptContext._lazy_init(self)
         return object.__getattribute__(self, attr)
